@@ -356,6 +356,9 @@ func genC17(r *Rng, idx int, tier string) *World {
 			bad.Pattern = pick(r, live)
 			have := sortedKeys(strSetOfHandlers(m.Routes[bad.Pattern]))
 			bad.Methods = insertAt(freshList(bad.Pattern), pick(r, have))
+			if r.Pct(25) {
+				bad.Methods = nil // no list at all: the default list (Any) - a duplicate whenever the pattern has one of its methods
+			}
 		case 1: // reserved method somewhere in the list
 			bad.Pattern = somePattern()
 			bad.Methods = insertAt(freshList(bad.Pattern), pick(r, reserved))
